@@ -170,11 +170,18 @@ func mkInstance(sc *Scenario) (*explorer.Instance, *runState) {
 				rs.ops = append(rs.ops, r)
 				yield() // invocation is a scheduling point of its own
 				r.Call = w.Steps
+				// as in Manager.Handle: the executor returns (its locks released), then the reply is
+				// serialised - a scheduling point in between lets another command run before a value
+				// that was handed out by reference is read
 				var reply []byte
 				if conn != nil {
-					reply = h.ReplyBytes(rs.mgr.ExecCommand(ctx, h.B(a...), conn))
+					res := rs.mgr.ExecCommand(ctx, h.B(a...), conn)
+					yield()
+					reply = h.ReplyBytes(res)
 				} else {
-					reply = h.ReplyBytes(rs.mgr.ExecCommand(ctx, h.B(a...), nil))
+					res := rs.mgr.ExecCommand(ctx, h.B(a...), nil)
+					yield()
+					reply = h.ReplyBytes(res)
 				}
 				r.Reply = reply
 				r.Ret, r.Done = w.Steps, true
